@@ -69,7 +69,8 @@ def shape_matches(cls, line, tls, headers):
             return False
         if toks[1].startswith("/wap"):
             return True
-        h = {k.lower(): v for k, v in headers}
+        # the value as the header parser keeps it: everything after the first ':' of the stripped line
+        h = {kv[0].lower(): ((kv[2] if len(kv) > 2 else ": ")[1:] + kv[1]).rstrip() for kv in headers}
         acc = h.get("accept")
         if acc is None or not re.search("[, ]text/vnd.wap.wml", acc):
             return False
@@ -111,6 +112,10 @@ CANON = [
     ("gopher-plain", "/docs"), ("gopher-empty", ""), ("gopher-slash", "/"),
     ("gemini", "gemini://sim.example.org/docs"), ("gemini-root", "gemini://h/"), ("gemini-upper", "GEMINI://h/docs"),
     ("gemini-http-scheme", "https://h/docs"), ("gemini-query", "gemini://h/docs?q"),
+    # first lines longer than any buffer size one might think of (64 KiB, 8 KiB)
+    ("http-long", "GET /" + "a" * 70000 + " HTTP/1.0"), ("gopherp-long", "/" + "b" * 70000 + "\t+"),
+    ("spartan-long", "h /" + "c" * 66000 + " 0"), ("gemini-long", "gemini://h/" + "d" * 70000),
+    ("http-8k", "GET /" + "a" * 8200 + " HTTP/1.0"), ("gopherp-8k", "/" + "b" * 8200 + "\t$"),
 ]
 HEADER_VARIANTS = {
     "none": [],
@@ -122,6 +127,10 @@ HEADER_VARIANTS = {
     "wap-profile-only": [("Accept", "text/html"), ("x-wap-profile", "p")],
     "wap-reordered": [("x-wap-profile", "p"), ("User-Agent", "x"), ("Accept", "a/b text/vnd.wap.wml")],
     "wap-lookalike": [("Accept", "text/vnd.wap.wmlscript,text/html"), ("X-Wap-Profile-Diff", "d")],
+    "wap-wml-first": [("Accept", "text/vnd.wap.wml, text/html"), ("X-Wap-Profile", "p")],
+    "wap-wml-only": [("Accept", "text/vnd.wap.wml"), ("x-up-devcap-max-pdu", "9")],
+    "wap-wml-first-nospace": [("Accept", "text/vnd.wap.wml,text/html", ":"), ("X-Wap-Profile", "p")],
+    "wap-two-spaces": [("Accept", "text/html,  text/vnd.wap.wml", ":  "), ("X-Wap-Profile", "p", ":")],
 }
 
 
@@ -139,7 +148,8 @@ def _conn(rng, label, line, tls, hv):
     data = line + eol
     hdr = ""
     if hv != "none" or line.startswith(("GET ", "HEAD ")):
-        hdr = "".join("%s: %s\r\n" % kv for kv in HEADER_VARIANTS[hv]) + "\r\n"
+        hdr = "".join("%s%s%s\r\n" % (kv[0], kv[2] if len(kv) > 2 else ": ", kv[1])
+                      for kv in HEADER_VARIANTS[hv]) + "\r\n"
     raw = (data + hdr).encode("utf-8", "surrogateescape").decode("latin-1")
     segs, delays = _plan(rng, len(raw) + (13 if tls else 0))
     return {"label": label, "line": line, "eol": eol, "tls": tls, "hv": hv, "raw": raw,
